@@ -39,13 +39,13 @@ def call(eng, e, st, stmt):
         q = '%s:%s' % (imp[1], imp[2])
         if q in eng.builtins:
             return eng.builtins[q](eng, e, st, args, kwargs)
-        if imp[0] == 'class':
-            q2 = q + '.__init__'
-            if q2 in Contract.registry:
-                return apply_contract(eng, Contract.registry[q2], None, args, kwargs, e, st, ctor=q)
-            return inline_ctor(eng, q, args, kwargs, e, st)
         if q in Contract.registry:
             return apply_contract(eng, Contract.registry[q], None, args, kwargs, e, st)
+        q2 = q + '.__init__'
+        if q2 in Contract.registry:
+            return apply_contract(eng, Contract.registry[q2], None, args, kwargs, e, st, ctor=q)
+        if imp[0] == 'class' or _is_class(eng, imp[1], imp[2]):
+            return inline_ctor(eng, q, args, kwargs, e, st)
         raise Unsupported('%s: call to %s (line %d) has no contract' % (fc.qualname, q, e.lineno))
     if kind == 'method':
         obj, name, objexpr = fv.payload
@@ -194,6 +194,10 @@ def apply_contract(eng, con, selfpair, args, kwargs, e, st, ctor=None):
         raise Unsupported('contract case %s of %s does not fit its own fresh result' % (case.name, con.qualname))
     for nm, b in posts:
         st.assume(b)
+    if getattr(con, 'assumed_ensures', None) is not None:
+        for nm, b in con.assumed_ensures(c2):
+            st.assume(b)
+            eng.assumed.add('assumed (unproved) postcondition %s.%s' % (con.qualname.partition(':')[2], nm))
     if getattr(con, 'call_hook', None) is not None:
         con.call_hook(eng, st, c2, e, exprs)
     # write back mutated objects into the caller's l-values
@@ -250,3 +254,12 @@ def inline_ctor(eng, q, args, kwargs, e, st):
         raise Unsupported('inline constructor %s is not straight-line' % q)
     st.pc = outs[0][1].pc
     return outs[0][1].env['self']
+
+
+def _is_class(eng, modname, name):
+    import ast as _ast
+    try:
+        path, src, tree = eng.src.module(modname)
+    except (OSError, Unsupported):
+        return False
+    return any(isinstance(n, _ast.ClassDef) and n.name == name for n in tree.body)
